@@ -40,7 +40,7 @@ fn craft_wm_codes(freq: &mut HashMap<usize, u32>, sigma: usize) -> Vec<PrefixCod
 
     f.sort_by_key(|x| x.1);
 
-    let mut c = vec![0; alph_size];
+    let mut c = vec![0; alph_size.max(2)]; // a single symbol still gets a 1-bit code
     let mut assignments = vec![PrefixCode { content: 0, len: 0 }; sigma + 1];
     let mut m = 1; //how many codes we have so far
     let mut l = 0;
